@@ -958,7 +958,9 @@ class ResourceMon(Monitor):
         self.check(w)
         if label[0] == 'ev' and ev_action_name(ev) == '_fail' and not ev.cancelled:
             p = ev_owner(ev)
-            if getattr(p, '_reserved_resources', None) is not None:
+            if getattr(p, '_reserved_resources', None) is not None and (p._part is None or not p.is_operational()):
+                # (a failure callback may restore the machine and give it a part again within the same event: that part
+                # is then processed under a reservation of its own)
                 raise Violation('release_on_failure', f'{p.name} still holds resources after failing')
         for t in w.hub.tlog:
             if t[0] == 'gave' and not t[6]:
@@ -1029,6 +1031,15 @@ class RouteMon(Monitor):
             if d['kind'] in ('handler', 'processor'):
                 self.idle_since[d['name']] = t0
 
+    @staticmethod
+    def _resources_free(w, d):
+        '''A machine that needs resources is able to take a part only if they can be had now (or it holds them already).'''
+        req = getattr(d, '_resources_for_processing', None)
+        if not req or getattr(d, '_reserved_resources', None) is not None:
+            return True
+        rm = w.env.resource_manager
+        return all(n <= 0 or rm.get_resource_capacity(r) - rm.get_resource_usage(r) >= n for r, n in req.items())
+
     def downstream_of(self, name):
         return [d for d, ups in self.up.items() if name in ups]
 
@@ -1037,7 +1048,7 @@ class RouteMon(Monitor):
         self.pre_idle = {}
         for d in w.dev.values():
             if _is_cycle_dev(d) and d._part is None and d._output is None and d.is_operational() \
-                    and not d.block_input:
+                    and not d.block_input and self._resources_free(w, d):
                 self.pre_idle[d.name] = self.idle_since.get(d.name, 0)
 
     def _group_of_io(self, w, dev):
